@@ -141,16 +141,17 @@ Section Env.
   Definition default_ifs : str := [32; 9; 10].
   Definition is_ifs (c : N) : bool := existsb (N.eqb c) default_ifs.
 
-  (* wordFields' state: finished fields (reversed), current field (None = no parts yet),
-     allowEmpty *)
-  Record fstate := mkF { f_done : list str; f_cur : option str; f_allow : bool }.
+  (* wordFields' state: finished fields (reversed), current field (None = no parts yet) *)
+  Definition fstate := (list str * option str)%type.
+  Definition f_done (st : fstate) : list str := fst st.
+  Definition f_cur (st : fstate) : option str := snd st.
 
   Definition add_cur (st : fstate) (s : str) : fstate :=
-    mkF (f_done st) (Some (match f_cur st with Some c => c ++ s | None => s end)) (f_allow st).
+    (fst st, Some (match snd st with Some c => c ++ s | None => s end)).
 
   Definition flush (st : fstate) : fstate :=
-    match f_cur st with
-    | Some c => mkF (c :: f_done st) None (f_allow st)
+    match snd st with
+    | Some c => (c :: fst st, None)
     | None => st
     end.
 
@@ -179,7 +180,7 @@ Section Env.
 
   (* one word: its fields in order *)
   Definition word_fields (w : list item) : list str :=
-    rev (f_done (flush (fold_left item_step w (mkF [] None false)))).
+    rev (f_done (flush (fold_left item_step w ([], None)))).
 
   Fixpoint split_words (its : list item) (cur : list item) : list (list item) :=
     match its with
